@@ -314,7 +314,21 @@ def _i_cli_addr(payload, ty, net, wv, mode):
         cfg = {"network": net}
     elif net is not None:
         argv += ["-N" if mode != "long" else "--network", net]
-    if mode in ("raw", "print"):
+    path = None
+    if mode.startswith("file-"):
+        # the same payload through -i FILE instead of stdin
+        import os
+        import tempfile
+        fmt = mode[5:]
+        data = payload if fmt == "raw" else payload.hex().encode() + b"\n" if fmt == "hex" else \
+            ("".join("{:08b}".format(x) for x in payload)).encode()
+        fd, path = tempfile.mkstemp(prefix="c08_addr_")
+        with os.fdopen(fd, "wb") as fh:
+            fh.write(data)
+        argv += ["-i" if len(payload) % 2 else "--in-file", path]
+        argv += {"raw": ["-1"], "hex": [], "bin": ["-1", "bin"]}[fmt]
+        stdin = b""
+    elif mode in ("raw", "print"):
         argv += ["-1"]
         stdin = payload
     elif mode == "rawword":
@@ -329,7 +343,12 @@ def _i_cli_addr(payload, ty, net, wv, mode):
         stdin = payload.hex().encode()
     if mode == "print":
         argv += ["-P"]
-    r = cli.run_main(argv, stdin=stdin, config_json=cfg)
+    try:
+        r = cli.run_main(argv, stdin=stdin, config_json=cfg)
+    finally:
+        if path is not None:
+            import os
+            os.unlink(path)
     out = _cli_result(r, "bits addr")
     if mode == "print" and not out.startswith(_MARK):
         if not out.endswith(b"\n"):
@@ -850,8 +869,50 @@ def gen_cases(rng, tier):
     for _ in range(600 if T else 60):
         spk("rand-b58-string", 0, bytes(rng.choice(B58) for _ in range(rng.randrange(0, 60))))
         spk("rand-bech32-string", 0, rng.choice([b"bc1", b"tb1", b"bcrt1"]) + bytes(rng.choice(CHARSET.encode()) for _ in range(rng.randrange(0, 60))))
+    _gen_congruent(rng, T, out)
     _gen_cli(rng, T, out, pts, b58_addrs, seg_addrs)
     return out
+
+
+def tiny_y_points(count):
+    """secp256k1 points (x, y) with y < 2^256 - p, so that y + p still fits 32 bytes: x = cube root of y^2 - 7
+    (p = 7 mod 9: a cube c has the root c^((p+2)/9))"""
+    p = SECP["p"]
+    out = []
+    y = 1
+    while len(out) < count and y < 5000:
+        c = (y * y - 7) % p
+        x = pow(c, (p + 2) // 9, p)
+        if pow(x, 3, p) == c and y + p < 2 ** 256:
+            out.append((x, y))
+        y += 1
+    return out
+
+
+def _gen_congruent(rng, T, out):
+    """coordinates that satisfy the curve equation only MODULO p (x + p, y + p in the 32-byte field): SEC1 demands field
+    elements, such a buffer is not a key and must not become a P2PK script"""
+    spk = lambda cls, cv, data: out.append(case(cls, "scriptpubkey", cv, data, strict=True))
+    p = SECP["p"]
+    B = lambda n: n.to_bytes(32, "big")
+    for (x, y) in tiny_y_points(12 if T else 4):
+        spk("key-uncomp", 0, sec1(x, y, False))                                  # the point itself is a key
+        spk("key-y-congruent-mod-p", 0, b"\x04" + B(x) + B(y + p))
+        spk("key-y-congruent-mod-p", 0, b"\x04" + B(x) + B(p - y + p) if p - y + p < 2 ** 256 else b"\x04" + B(x) + B(y + p))
+        spk("key-y-congruent-mod-p", 0, bytes([6 + (y & 1)]) + B(x) + B(y + p))     # hybrid form
+        out.append(case("send-key-y-congruent", "send_recipient", b"\x04" + B(x) + B(y + p), strict=True))
+    for cv in (43, 79, 67):
+        pp = curve(cv)["p"]
+        spts = _small_points(cv)
+        for (x, y) in (spts if T else spts[::4]):
+            spk("small-key-y-congruent", cv, b"\x04" + B(x) + B(y + pp))
+            spk("small-key-y-congruent", cv, b"\x04" + B(x) + B(y + rng.randrange(2, 1000) * pp))
+            spk("small-key-x-congruent", cv, b"\x04" + B(x + pp) + B(y))
+            spk("small-key-x-congruent", cv, bytes([2 + (y & 1)]) + B(x + pp))
+            spk("small-key-x-congruent", cv, bytes([2 + (y & 1)]) + B(x + rng.randrange(2, 1000) * pp))
+            spk("small-key-xy-congruent", cv, b"\x04" + B(x + pp) + B(y + pp))
+            spk("small-key-y-congruent", cv, bytes([6 + (y & 1)]) + B(x) + B(y + pp))
+            spk("small-key-y-negative-congruent", cv, b"\x04" + B(x) + B(2 ** 256 - pp + y) if (2 ** 256 - pp) % pp == 0 else b"\x04" + B(x) + B(y + pp * ((2 ** 256 - 1 - y) // pp)))
 
 
 def _gen_cli(rng, T, out, pts, b58_addrs, seg_addrs):
@@ -891,6 +952,42 @@ def _gen_cli(rng, T, out, pts, b58_addrs, seg_addrs):
     # programs the encoder writes although no decoder accepts them (v0 / out-of-range lengths), empty payloads
     for (L, v) in ((5, 0), (21, 0), (1, 1), (41, 1), (0, None), (19, None), (21, None), (32, None), (0, 0)):
         cli_addr("cli-addr-nonstandard-length", rng.randbytes(L), "p2pkh", rng.choice(NETS), v, rng.choice(("hex", "raw")))
+
+    # ---- payloads whose first / last byte is a white-space, newline or NUL byte: EVERY legal program length 2..40 for
+    #      versions 1..16 (a 21-byte program ending in 0x0a is not a 20-byte program followed by echo's newline), through
+    #      stdin and through -i FILE, raw / hex / bin; the analogous hashes for p2pkh / p2sh and version 0
+    SPECIAL = [0x0A, 0x0D, 0x20, 0x09, 0x00, 0x0B, 0x0C]
+    inmodes = ["raw", "file-raw", "rawword", "bin", "file-bin", "hex", "file-hex", "HEX"]
+    j = 0
+    for L in range(2, 41):
+        v = 1 + (L * 7) % 16
+        body = rng.randbytes(L - 1)
+        cli_addr("cli-addr-ws-program-last", body + b"\x0a", None, NETS[L % 3], v, "raw")
+        cli_addr("cli-addr-ws-program-last", body + bytes([SPECIAL[L % 5]]), "p2sh", NETS[(L + 1) % 3], 1 + (L * 3) % 16, "file-raw")
+        cli_addr("cli-addr-ws-program-first", bytes([SPECIAL[(L + 2) % 5]]) + body, None, NETS[(L + 2) % 3], v, inmodes[j % len(inmodes)])
+        j += 1
+        if T:
+            for sp in SPECIAL:
+                cli_addr("cli-addr-ws-program-last", body + bytes([sp]), None, rng.choice(NETS), rng.randrange(1, 17), inmodes[j % len(inmodes)])
+                cli_addr("cli-addr-ws-program-both", bytes([sp]) + body[1:] + bytes([sp]), None, rng.choice(NETS), rng.randrange(1, 17), rng.choice(("raw", "file-raw")))
+                j += 1
+    for sp in SPECIAL[:5] if not T else SPECIAL:
+        for L in (21, 33):       # one byte longer than a hash
+            cli_addr("cli-addr-ws-program-last", rng.randbytes(L - 1) + bytes([sp]), None, rng.choice(NETS), rng.randrange(1, 17), "raw")
+            cli_addr("cli-addr-ws-program-last", rng.randbytes(L - 1) + bytes([sp]), None, rng.choice(NETS), rng.randrange(1, 17), "file-raw")
+        for ty in ("p2pkh", "p2sh"):
+            cli_addr("cli-addr-ws-hash", rng.randbytes(19) + bytes([sp]), ty, rng.choice(NETS), None, "raw")
+            cli_addr("cli-addr-ws-hash", bytes([sp]) + rng.randbytes(19), ty, rng.choice(NETS), None, "file-raw")
+            # 21 bytes: not a hash; whatever the encoder does with it, the command must do the same
+            cli_addr("cli-addr-ws-hash-21", rng.randbytes(20) + bytes([sp]), ty, rng.choice(NETS), None, rng.choice(("raw", "file-raw")))
+        for L in (20, 32):
+            cli_addr("cli-addr-ws-v0", rng.randbytes(L - 1) + bytes([sp]), None, rng.choice(NETS), 0, rng.choice(("raw", "file-raw")))
+            cli_addr("cli-addr-ws-v0-plus1", rng.randbytes(L) + bytes([sp]), None, rng.choice(NETS), 0, rng.choice(("raw", "file-raw")))
+    # payloads made of white space only (hex / bin input strips it: empty payload)
+    for mode in ("raw", "file-raw", "hex", "file-hex", "bin"):
+        cli_addr("cli-addr-ws-only", b"\n", "p2pkh", "mainnet", None, mode)
+        cli_addr("cli-addr-ws-only", b" \t\r\n" * 5, "p2sh", "testnet", None, mode)
+        cli_addr("cli-addr-ws-only", b"\n" * 20, None, "regtest", 1, mode)
 
     # ---- send_tx / bits send: recipient and change address go through scriptpubkey
     def send(cls, data, both=True):
@@ -986,8 +1083,24 @@ def extra_checks(ctx):
                     "oracle": verdict, "failing_input_found": True})
         if len(out) >= 5:
             break
-    ctx["stats"].setdefault("extra", {})["literal_property_evaluations"] = n
+    ex = ctx["stats"].setdefault("extra", {})
+    ex["literal_property_evaluations"] = n
+    ex["translator_mode"] = translator_mode()
     return out
+
+
+def translator_mode():
+    """how harness/gen_c08.py obtained each table of coq/Gen/AddressGen.v in this run (syntactic reader / behavioural probe)"""
+    import os
+    import re
+    try:
+        txt = open(os.path.join(os.path.dirname(os.path.abspath(__file__)), "..", "coq", "Gen", "AddressGen.v")).read()
+    except OSError:
+        return {"AddressGen": "missing (generator failed closed)"}
+    m = re.search(r"\(\* translator_mode: (.*?) \*\)", txt)
+    if not m:
+        return {"AddressGen": "no translator_mode line"}
+    return dict(kv.split("=", 1) for kv in m.group(1).split("; ") if "=" in kv)
 
 
 # ---------------------------------------------------------------- the same computation as a Coq term (vm_compute cross-check)
